@@ -17,6 +17,12 @@ def call_method(ex, obj, name, args, kwargs):
         return set_method(ex, obj, name, args, kwargs)
     if isinstance(obj, (str, SStr)):
         return str_method(ex, obj, name, args, kwargs)
+    if isinstance(obj, slice) and name == 'indices':
+        if obj.step not in (None, 1):
+            raise Unsupported('slice.indices with a step')
+        n = args[0]
+        lo, ln = N.norm_slice(ex, n, obj.start, obj.stop)
+        return STuple((lo, mk_int(zint(lo) + zint(ln)), 1))
     if isinstance(obj, tuple):
         if name == 'index':
             for i, x in enumerate(obj):
@@ -615,8 +621,19 @@ def set_method(ex, s, name, args, kwargs):
             ex.throw('KeyError', args[0])
         return None
     if name in ('union', 'update'):
-        t = s if name == 'update' else SSet(s.d.items())
+        t = s if name == 'update' else N.copy_set(s)
         for a in args:
+            if isinstance(a, RangeVal) and a.step == 1 and N.range_is_big(a):
+                if t.minus is not None:
+                    raise Unsupported('update of an interval-set difference')
+                t.ranges.append((a.start, a.stop))
+                continue
+            if isinstance(a, SSet) and (a.ranges or a.minus is not None or a.pred is not None):
+                if a.minus is not None or t.minus is not None or a.pred is not None:
+                    raise Unsupported('union with an interval-set difference')
+                t.d.update(a.d)
+                t.ranges += a.ranges
+                continue
             for x in N.iterate(ex, a):
                 t.d[N.key_of(ex, x)] = x
         return None if name == 'update' else t
